@@ -18,6 +18,7 @@ import (
 	"bufio"
 	"bytes"
 	"io"
+	"sync/atomic"
 
 	"github.com/santhosh-tekuri/raft/log"
 )
@@ -324,11 +325,13 @@ func (r *Raft) onSnapshotTaken(t snapTaken) {
 		if trace {
 			println(r, "nowCompact:", nowCompact, "canCompact:", canCompact)
 		}
-		if r.state == Leader && len(r.ldr.repls) > 0 {
+		if r.state == Leader && atomic.LoadInt32(&r.ldr.running) > 0 {
+			// (with only removed replications still winding down nothing is
+			// compacted now; the next snapshot will take care of it)
 			// replications read the log through views that point into the
 			// segments: hand them a view that starts at the new boundary and
 			// compact only after every one of them switched to it (checkLogCompact)
-			if canCompact > r.ldr.removeLTE {
+			if len(r.ldr.repls) > 0 && canCompact > r.ldr.removeLTE {
 				r.ldr.removeLTE = canCompact
 				r.ldr.notifyFlr(false)
 			}
